@@ -506,7 +506,7 @@ impl<'a> Runner<'a> {
         }
       }
     }
-    let analysis = self.analyse(step, &kind, &slice, &res, is_repeat, fault_free, last, carry);
+    let analysis = self.analyse(step, &kind, &slice, &res, is_repeat, fault_free, last, carry, &before);
     // What pie's session now holds as consistent.
     for t in analysis.validated_ok.iter().chain(analysis.pass_complete.iter()).chain(analysis.bu_reused.iter()) { carry.validated.insert(*t); }
     for t in analysis.executed.iter() {
@@ -981,7 +981,7 @@ impl<'a> Runner<'a> {
   }
 
   /// Walks the log slice of one session: updates the ledger and evaluates the log-based oracles.
-  fn analyse(&mut self, step: usize, kind: &SessionKind, slice: &[Ev], res: &SessionResult, is_repeat: bool, fault_free: bool, last: bool, carry: &Carry) -> Analysis {
+  fn analyse(&mut self, step: usize, kind: &SessionKind, slice: &[Ev], res: &SessionResult, is_repeat: bool, fault_free: bool, last: bool, carry: &Carry, before: &[Option<Val>]) -> Analysis {
     let prog = self.prog.clone();
     let ntasks = prog.tasks.len();
     let aborted = res.abort.is_some();
@@ -1304,6 +1304,18 @@ impl<'a> Runner<'a> {
           };
           if let Verdict::Error(code) = verdict { errors_seen.push(code); }
           if let Ev::RCheck { chk, .. } = ev { if chk.is_zst() { zst_checked = true; } }
+          // Verdict truth for resource checkers that delegate to pie's own checkers (map: MapEqualsChecker; file:
+          // Exists / Hash): the verdict must be the documented relation between the stamped and the current value.
+          if let Ev::RCheck { chk, now, serial, res, verdict: vd @ (Verdict::Consistent | Verdict::Inconsistent), .. } = ev {
+            if res.fam >= 2 && matches!(chk, RK::Exact | RK::Exists) {
+              if let Some(seen) = self.stamp_seen.get(serial) {
+                let expected = chk.stamp_of(Cell { val: *seen, ver: 0 }) != chk.stamp_of(Cell { val: now.val, ver: 0 });
+                if expected != (*vd == Verdict::Inconsistent) {
+                  v(&["C09", "C13", "C14"], "resource-checker-relation", format!("checker {:?} of {:?} answered {:?} for stamped value {:?} vs current value {:?}", chk, res, vd, seen, now.val));
+                }
+              }
+            }
+          }
           if let Ev::RCheck { chk, verdict: Verdict::Consistent, now, serial, .. } = ev {
             if !chk.is_exact() { if let Some(seen) = self.stamp_seen.get(serial) { if *seen != now.val { coarse_ignored = true; } } }
           }
@@ -1419,6 +1431,44 @@ impl<'a> Runner<'a> {
               let via_replaced = (executed.contains(&x) || executed.contains(w)) && ledger_path(&self.ledger, &replaced, x, *w);
               let sig = if !executed.contains(&x) && !executed.contains(w) && intermediate_reexecuted { "path-dropped-by-reexecuted-intermediate" } else if via_replaced { "path-through-record-replaced-later-in-build" } else { "" };
               violations.push(Violation::new(&["C05"], "reader-without-path-after-build", step, format!("after the build returned, task {x}, which was executed or validated in it, is a recorded reader of {:?} without (transitively) requiring its writer {w}", r)).with_sig(sig));
+              break;
+            }
+          }
+        }
+      }
+      // Zero-sized-stamp checkers: the verdict is a function of the current value alone, so the model knows it even
+      // when pie never asks the checker. A task that was reused although such a dependency is inconsistent now was
+      // not validated by its checker (top-down: every task handed out; bottom-up: every known task whose dependency
+      // target was reported, written or re-executed in this build).
+      if zst_program && fault_free {
+        let mut world: Vec<Option<Val>> = before.to_vec();
+        let mut touched_res: BTreeSet<ResKey> = BTreeSet::new();
+        let mut bu_executed: BTreeSet<Tid> = BTreeSet::new();
+        let mut in_bu = false;
+        for e in slice.iter() {
+          match e {
+            Ev::BuStart => { in_bu = true; }
+            Ev::BuEnd | Ev::BuDropped => { in_bu = false; }
+            Ev::ExecStart { t, .. } if in_bu => { bu_executed.insert(*t); }
+            Ev::ResSet { res, new, .. } => { if let Some(i) = prog.res_index(*res) { world[i] = *new; if in_bu { touched_res.insert(*res); } } }
+            _ => {}
+          }
+        }
+        if let SessionKind::BottomUp { report, .. } = kind { for r in report.iter() { touched_res.insert(prog.resources[*r]); } }
+        let bu_complete = matches!(kind, SessionKind::BottomUp { complete: true, .. }) && !self.abort_dirty && self.td_partial_exec.is_empty();
+        for t in 0..ntasks {
+          if executed.contains(&t) { continue; }
+          let Some(rec) = self.ledger[t].as_ref() else { continue; };
+          if !rec.completed { continue; }
+          let handed_out = validated_ok.contains(&t) && !carry.validated.contains(&t);
+          for d in rec.deps.iter() {
+            let (incons, relevant) = match (d.target, d.rchk, d.ochk) {
+              (Target::Res(r), Some(k), _) if k.is_zst() => { let val = prog.res_index(r).and_then(|i| world[i]); (k.zst_inconsistent(Cell { val, ver: 0 }), handed_out || (bu_complete && touched_res.contains(&r))) }
+              (Target::Task(u), _, Some(k)) if k.is_zst() => { let out = self.ledger[u].as_ref().and_then(|e| e.out); (out.map(|o| k.zst_inconsistent(&o)).unwrap_or(false), handed_out || (bu_complete && bu_executed.contains(&u))) }
+              _ => (false, false),
+            };
+            if incons && relevant {
+              violations.push(Violation::new(&["C09", "C08"], "zst-inconsistent-but-reused", step, format!("task {t} was not re-executed although its dependency on {:?}, whose checker keeps everything it needs in itself (zero-sized stamp), is inconsistent for the current value", d.target)));
               break;
             }
           }
